@@ -39,6 +39,14 @@ class Unknown(Exception):
     pass
 
 
+class UnboundRead(Unknown):
+    """a local of the function is read on a reachable path on which nothing was assigned to it yet
+    (UnboundLocalError at run time); subclass of Unknown so that callers that do not care stay undecided"""
+    def __init__(self, name, node):
+        Unknown.__init__(self, 'local `%s` is read before anything is assigned to it' % name)
+        self.name, self.node = name, node
+
+
 class Stop(Exception):
     """control: too many states"""
 
@@ -141,6 +149,26 @@ class Machine(object):
         self.stale = []         # comparisons that read a row taken before the latest one of its stream
         self._opq = 0
         self.loops_seen = []
+        # names that are locals of the function by Python's scoping rule (assigned somewhere in its own body, not
+        # declared global / nonlocal); comprehension targets live in their own scope and are left out
+        declared = {n for x in ast.walk(fn_node) if isinstance(x, (ast.Global, ast.Nonlocal)) for n in x.names}
+        self.local_names = set()
+        stack = list(fn_node.body)
+        while stack:
+            x = stack.pop()
+            if isinstance(x, (ast.FunctionDef, ast.AsyncFunctionDef, ast.ClassDef)):
+                self.local_names.add(x.name)
+                continue
+            if isinstance(x, (ast.Lambda, ast.ListComp, ast.SetComp, ast.DictComp, ast.GeneratorExp)):
+                continue
+            if isinstance(x, ast.Name) and isinstance(x.ctx, ast.Store):
+                self.local_names.add(x.id)
+            elif isinstance(x, (ast.Import, ast.ImportFrom)):
+                self.local_names.update((a.asname or a.name).split('.')[0] for a in x.names)
+            elif isinstance(x, ast.ExceptHandler) and x.name:
+                self.local_names.add(x.name)
+            stack.extend(ast.iter_child_nodes(x))
+        self.local_names -= declared
 
     # ------------------------------------------------------------------ driver
     def run(self):
@@ -541,6 +569,8 @@ class Machine(object):
                 return [(C({'True': True, 'False': False, 'None': None}[e.id]), st)]
             if e.id in self.globals_const:
                 return [(self.globals_const[e.id], st)]
+            if e.id in self.local_names:
+                raise UnboundRead(e.id, e)
             return [(('glob', e.id), st)]
         if isinstance(e, ast.Attribute):
             if isinstance(e.value, ast.Name) and e.value.id == 'self':
